@@ -147,7 +147,7 @@ def body(run: Run, replay):
                 if got.shape != want.shape or not np.all(err <= 1e-6):
                     run.violation("ntfl: %s differs from the directly coupled system (relative %.3g at %.4g Hz)" % (nm, err.max(), freq[int(np.argmax(err))]),
                                   {"cfg": cfg, "Ms": Ms, "Ks": Ks, "Ml": Ml, "Kl": Kl}, dict(tags, fn="ntfl"))
-            if nt.TAM.tobytes() != (nt.SAM + nt.LAM).tobytes():
+            if not np.allclose(nt.TAM, nt.SAM + nt.LAM, rtol=1e-13, atol=1e-13 * np.abs(nt.TAM).max()):
                 run.violation("ntfl: TAM is not SAM + LAM", {"cfg": cfg}, dict(tags, fn="ntfl"))
             for j in range(lf):
                 mr = terms.ev(T["ntmr"], {"SAM": nt.SAM[:, j, :], "LAM": nt.LAM[:, j, :]})
